@@ -1474,6 +1474,190 @@ Proof.
     + apply lookup_empty_dir. destruct r0; [assumption|discriminate].
 Qed.
 
+(* ================================================================== *)
+(* download                                                              *)
+
+Lemma update_at_const t p f : update_at t p f = update_at t p (fun _ => f (sub_or t p)).
+Proof.
+  revert t; induction p as [|n p IH]; intros t; [reflexivity|].
+  rewrite !update_at_cons. rewrite IH. rewrite sub_or_cons. reflexivity.
+Qed.
+
+Lemma no_file_on_blocked fs a : no_file_on fs a -> blocked fs a = false.
+Proof.
+  intro NF. destruct (blocked fs a) eqn:B; auto.
+  apply blocked_true in B as (q & r & c & -> & _ & L). exfalso. eapply NF; [apply is_prefix_app|exact L].
+Qed.
+
+Lemma l_mkdir_p_exact lcwd lfs p :
+  no_file_on lfs (resolve lcwd p) -> l_mkdir_p lcwd lfs p = Ok (ensure_dir lfs (resolve lcwd p)).
+Proof.
+  intro NF. unfold l_mkdir_p. destruct (lookup lfs (resolve lcwd p)) as [[c|ch]|] eqn:L.
+  - exfalso. eapply NF; [apply is_prefix_refl|exact L].
+  - rewrite (ensure_dir_exists _ _ _ L). reflexivity.
+  - rewrite no_file_on_blocked by assumption. reflexivity.
+Qed.
+
+Lemma prefix_cases (q A : list name) : is_prefix q A = true -> q = A \/ is_prefix q (removelast A) = true.
+Proof.
+  intro P. apply is_prefix_true in P as [r ->]. destruct r as [|m r] using rev_ind.
+  - left. rewrite app_nil_r. reflexivity.
+  - right. rewrite app_assoc, removelast_last. apply is_prefix_app.
+Qed.
+
+Lemma no_file_on_extend fs A :
+  no_file_on fs (removelast A) -> (forall c, lookup fs A <> Some (File c)) -> no_file_on fs A.
+Proof.
+  intros NF N q P. destruct (prefix_cases q A P) as [->|P']; [exact N|]. apply NF. assumption.
+Qed.
+
+Lemma no_file_on_updated lfs A acc : no_file_on (update_at lfs A (fun _ => Dir acc)) A.
+Proof.
+  intros q P c L. apply look_file in L. rewrite look_update_at in L.
+  destruct (strip_prefix A q) as [r|] eqn:SP.
+  - apply strip_prefix_Some in SP. subst q. apply is_prefix_true in P as [y P].
+    rewrite <- app_assoc in P. rewrite <- (app_nil_r A) in P at 1. apply app_inv_head in P.
+    symmetry in P. apply app_eq_nil in P as [-> _]. discriminate L.
+  - rewrite P in L. discriminate.
+Qed.
+
+Lemma prelative_to_join src n : prelative_to (pjoin src (mkp false [n])) src = Some (mkp false [n]).
+Proof.
+  unfold prelative_to, pjoin. cbn [p_abs p_parts]. rewrite Bool.eqb_reflx, strip_prefix_app. reflexivity.
+Qed.
+
+Definition dl_each (f : nat) (cwd : list name) (rfs : tree) (lcwd : list name) (src dst' : ppath) :=
+  fix each (l : list (name * bool)) (l0 : tree) : res tree :=
+    match l with
+    | [] => Ok l0
+    | e :: r =>
+        let nm := pjoin src (mkp false [fst e]) in
+        match prelative_to nm src with
+        | None => Fail 1
+        | Some rel => bind (download_to f cwd rfs lcwd l0 nm (pjoin dst' rel)) (each r)
+        end
+    end.
+
+Lemma download_to_S f cwd rfs lcwd lfs src dst' :
+  download_to (S f) cwd rfs lcwd lfs src dst' =
+  match r_stat cwd rfs src with
+  | None => Fail 550
+  | Some false =>
+      bind (l_mkdir_p lcwd lfs (pparent dst')) (fun l1 =>
+      bind (r_retr cwd rfs src) (fun c => l_write lcwd l1 dst' c))
+  | Some true =>
+      bind (l_mkdir_p lcwd lfs dst') (fun l1 =>
+      bind (r_list cwd rfs src) (fun ents => dl_each f cwd rfs lcwd src dst' ents l1))
+  end.
+Proof. reflexivity. Qed.
+
+Definition kinds_ok (lfs : tree) (A : list name) (t : tree) : Prop :=
+  forall r tt, lookup t r = Some tt ->
+    match tt with
+    | Dir _ => forall c, lookup lfs (A ++ r) <> Some (File c)
+    | File _ => forall ch, lookup lfs (A ++ r) <> Some (Dir ch)
+    end.
+
+Lemma download_exact cwd rfs lcwd t :
+  forall fuel lfs src dst',
+    (tree_size t <= fuel)%nat ->
+    lookup rfs (resolve cwd src) = Some t ->
+    wf_tree t ->
+    no_file_on lfs (removelast (resolve lcwd dst')) ->
+    kinds_ok lfs (resolve lcwd dst') t ->
+    (is_dir t = false -> p_parts dst' <> []) ->
+    download_to fuel cwd rfs lcwd lfs src dst' = Ok (graft lfs (resolve lcwd dst') t).
+Proof.
+  induction t as [c|ch IHch] using tree_ind2; intros fuel lfs src dst' Hf L W NF K HP.
+  - destruct fuel as [|f]; [simpl in Hf; lia|]. rewrite download_to_S. unfold r_stat. rewrite L. cbn [option_map is_dir].
+    specialize (HP eq_refl).
+    rewrite l_mkdir_p_exact; [|rewrite resolve_parent by assumption; exact NF].
+    cbn [bind]. unfold r_retr. rewrite L. cbn [bind]. unfold l_write.
+    rewrite resolve_parent by assumption.
+    assert (Ha : resolve lcwd dst' <> []).
+    { rewrite resolve_base. intro E. apply app_eq_nil in E as [_ E]. contradiction. }
+    destruct (exists_last Ha) as (x & n & E).
+    pose proof (K [] (File c) eq_refl) as ND. cbn in ND. rewrite app_nil_r in ND.
+    rewrite E in *. rewrite removelast_last. rewrite (r_stor_after_ensure lcwd lfs x n c dst' E ND). reflexivity.
+  - rewrite tree_size_dir in Hf. destruct fuel as [|f]; [lia|]. rewrite download_to_S.
+    unfold r_stat. rewrite L. cbn [option_map is_dir].
+    set (A := resolve lcwd dst') in *.
+    pose proof (K [] (Dir ch) eq_refl) as NFA. cbn in NFA. rewrite app_nil_r in NFA.
+    assert (NFA' : no_file_on lfs A) by (apply no_file_on_extend; assumption).
+    rewrite l_mkdir_p_exact by assumption. fold A. cbn [bind]. unfold r_list. rewrite L. cbn [bind].
+    set (acc0 := as_dir (sub_or lfs A)).
+    pose proof W as W0. apply wf_tree_dir in W as [ND F].
+    assert (Each : forall rest acc,
+              NoDup (map fst rest) -> incl rest ch -> (sizes rest <= f)%nat ->
+              (forall n, In n (map fst rest) -> assoc n acc = assoc n acc0) ->
+              dl_each f cwd rfs lcwd src dst' (map (fun nt => (fst nt, is_dir (snd nt))) rest)
+                      (update_at lfs A (fun _ => Dir acc))
+              = Ok (update_at lfs A (fun _ => Dir (oc rest acc)))).
+    { induction rest as [|[n c] rest IHr]; intros acc NDr I Hs Hacc; [reflexivity|].
+      cbn [map dl_each fst snd]. rewrite prelative_to_join.
+      inversion NDr as [|? ? Hn NDr']; subst. rewrite sizes_cons in Hs.
+      assert (Ic : In (n, c) ch) by (apply I; left; reflexivity).
+      set (fsi := update_at lfs A (fun _ => Dir acc)).
+      assert (RA : resolve lcwd (pjoin dst' (mkp false [n])) = A ++ [n]) by (rewrite resolve_join; reflexivity).
+      rewrite Forall_forall in IHch. rewrite (IHch (n, c) Ic f fsi).
+      - rewrite RA. cbn [bind]. unfold graft, fsi.
+        rewrite update_at_app, update_at_twice.
+        rewrite (update_at_ext lfs A _ (fun _ => Dir (set_child n (overlay c (child_or n acc)) acc))) by reflexivity.
+        rewrite IHr; [reflexivity|assumption| |lia|].
+        + intros y Hy. apply I. right; assumption.
+        + intros m Hm. rewrite assoc_set_child. destruct (name_eqbP m n) as [->|]; [contradiction|].
+          apply Hacc. right; assumption.
+      - cbn [snd]. lia.
+      - rewrite resolve_join, lookup_app, L. simpl. rewrite (assoc_NoDup_In ch n c ND Ic). reflexivity.
+      - rewrite Forall_forall in F. apply (F (n, c) Ic).
+      - rewrite RA, removelast_last. apply no_file_on_updated.
+      - rewrite RA. intros r tt Lr.
+        assert (Lt : lookup (Dir ch) (n :: r) = Some tt).
+        { simpl. rewrite (assoc_NoDup_In ch n c ND Ic). exact Lr. }
+        pose proof (K (n :: r) tt Lt) as Kt.
+        assert (Eq : lookup fsi ((A ++ [n]) ++ r) = lookup lfs (A ++ n :: r)).
+        { rewrite <- app_assoc. cbn [app]. unfold fsi. rewrite !lookup_app, lookup_update_same. cbn [lookup].
+          rewrite (Hacc n (or_introl eq_refl)). unfold acc0, sub_or.
+          destruct (lookup lfs A) as [[c0|ch0]|] eqn:E0; cbn; reflexivity. }
+        rewrite Eq. exact Kt.
+      - intros _. unfold pjoin. cbn. intro E. apply app_eq_nil in E as [_ E]. discriminate. }
+    unfold ensure_dir. rewrite (update_at_const lfs A dirify). fold acc0.
+    change (dirify (sub_or lfs A)) with (Dir acc0).
+    rewrite Each; auto.
+    + unfold graft. rewrite (update_at_const lfs A (overlay (Dir ch))). rewrite overlay_dir. reflexivity.
+    + apply incl_refl.
+    + lia.
+Qed.
+
+Lemma download_spec cwd rfs lcwd lfs src dst wi t fuel :
+  let dst' := final_destination (pname src) dst wi in
+  let A := resolve lcwd dst' in
+  (tree_size t <= fuel)%nat ->
+  lookup rfs (resolve cwd src) = Some t ->
+  wf_tree t ->
+  no_file_on lfs (removelast A) ->
+  kinds_ok lfs A t ->
+  (is_dir t = false -> p_parts dst' <> []) ->
+  download fuel cwd rfs lcwd lfs src dst wi = Ok (graft lfs A t).
+Proof. intros dst' A. unfold download. apply download_exact. Qed.
+
+(* ================================================================== *)
+(* fuel: the node count of the file system is enough for every walk      *)
+
+Lemma assoc_size n ch c : assoc n ch = Some c -> (tree_size c <= sizes ch)%nat.
+Proof.
+  induction ch as [|[k t] ch IH]; simpl; [discriminate|]. rewrite sizes_cons.
+  destruct (name_eqb n k); intro E; [inversion E; subst; lia|]. apply IH in E. lia.
+Qed.
+
+Lemma fuel_enough fs p t : lookup fs p = Some t -> (tree_size t <= tree_size fs)%nat.
+Proof.
+  revert fs; induction p as [|n p IH]; intros fs; simpl.
+  - intro E; inversion E; subst. apply Nat.le_refl.
+  - destruct fs as [c|ch]; [discriminate|]. destruct (assoc n ch) as [c|] eqn:A; [|discriminate].
+    intro L. apply IH in L. apply assoc_size in A. rewrite tree_size_dir. lia.
+Qed.
+
 (* names used by the witnesses: "foo", "x", "y", "a" *)
 Definition n_foo : name := [102; 111; 111].
 Definition n_x : name := [120].
